@@ -18,7 +18,9 @@ LEVEL = "model_checking"
 def run(ctx):
     quick = ctx.quick()
     drv = vlib.build_driver("cachedrv")
-    for cfg in (("Cache.cfg", "Cache_rel.cfg") if quick else ("Cache_8.cfg", "Cache_rel.cfg")):
+    # Cache_split.cfg: the cleaning pass at the grain of the code (MarkStale, then one CleanBucket per bucket, lookups /
+    # loader ends / releases of other goroutines in between)
+    for cfg in (("Cache.cfg", "Cache_rel.cfg", "Cache_split.cfg") if quick else ("Cache_8.cfg", "Cache_rel.cfg", "Cache_split.cfg")):
         r = vlib.run_tlc(ctx, "Cache.tla", cfg, tags=("NOCASE",), timeout=3000)
         if r.violated:
             raise vlib.Infra("TLC: %s violated in Cache.tla (%s, repaired design)" % (r.violated, cfg))
@@ -32,6 +34,7 @@ def run(ctx):
     tot = {"cases": 0, "evals": 0, "nontrivial": 0}
     plan = [("edges", "Cache_emit.cfg" if quick else "Cache_emit8.cfg", None, 1),
             ("rel", "Cache_emit_rel.cfg", None, 1),
+            ("split", "Cache_emit_split.cfg", None, 1),
             ("sim", "Cache_sim.cfg", "num=%d" % (1500 if quick else 40000), 4)]
     for label, cfg, sim, w in plan:
         cf = os.path.join(ctx.scratch, "cache-%s.jsonl" % label)
